@@ -65,6 +65,11 @@ def cases(tier, seed):
     for n in range(0, len(tt), 60):
         chunk = tt[n : n + 60]
         specs.append({"id": "tt:%s,%s" % (chunk[0][0][1], chunk[0][1][1]), "pairs": [list(p) for p in chunk]})
+    # the same curved drawings in millimetres instead of metres (1/1024) and magnified (x 4096)
+    for fac in ("1/1024", "4096"):
+        sc = [["SCL", "Q." + q, fac] for q in ("c8", "lens", "blob", "ftri", "c16b", "mixg")]
+        for a in sc:
+            specs.append({"id": "scaled:%s:%s" % (fac, a[1]), "A": a, "Bs": sc, "timeout": 1500})
     qn = al.Q_ORDER if tier == "thorough" else ["c16", "c8", "c4", "lens", "blob", "rsq", "fsq", "ftri"]
     qs = [["L", "Q." + q] for q in qn]
     for a in qs:
